@@ -467,6 +467,54 @@ pub fn run(ctx: &Ctx, rep: &Report) {
         rep.outcome("ap:address-recovered", total);
         rep.part("ap:address-recovery", total, json!({"dfs": dfs, "payloads": 3, "all_2^24_addresses": if thorough {"every DF × payload"} else {"DF4 payload 0; 16-bit windows elsewhere"}}));
     }
+    // (g) sequences: an address is announced (DF17 squitter, clean DF11), then replies overlaid with every
+    // address at Hamming distance <= 1 from it are decoded on the same thread; a valid squitter followed by its own
+    // corruptions. What was decoded before must not change the reported address / the acceptance.
+    {
+        let announced: Vec<u32> = {
+            let mut v = vec![0x406b90u32, 0x000000, 0xffffff, 0x800000, 0x000001, 0xa5a5a5];
+            for i in 0..(if thorough { 256 } else { 32 }) {
+                v.push((0x4840d6u32.wrapping_mul(2654435761u32.wrapping_add(i)) >> 4) & 0xffffff);
+            }
+            v
+        };
+        let total = std::sync::atomic::AtomicU64::new(0);
+        par_ranges(ctx.threads, announced.len() as u64, 1, |lo, hi| {
+            let mut n = 0u64;
+            for x in &announced[lo as usize..hi as usize] {
+                let mut sq = vec![0x8d, (x >> 16) as u8, (x >> 8) as u8, *x as u8, 0x20, 0x15, 0xa6, 0x78, 0xd4, 0xd2, 0x20, 0, 0, 0];
+                seal(&mut sq, 0);
+                let mut ac = vec![0x5d, (x >> 16) as u8, (x >> 8) as u8, *x as u8, 0, 0, 0];
+                seal(&mut ac, 0);
+                for announce in [&sq, &ac] {
+                    for bit in 0..=24u32 {
+                        let y = if bit == 24 { *x } else { x ^ (1 << bit) };
+                        for df in [0u8, 4, 5, 16, 20, 21] {
+                            let _ = guarded(|| Message::try_from(announce.as_slice()));
+                            let f = ap_frame(df, 2, y);
+                            n += 1;
+                            if let Some((c, w)) = check_ap(&f, y, true) {
+                                rep.violation(&format!("sequence:{c}"), format!("{w} when decoded right after {}", hexs(announce)), json!({"kind":"ap-after","frame":hexs(&f),"addr":y,"after":hexs(announce)}));
+                            }
+                        }
+                    }
+                }
+                // the valid squitter, then each single-bit corruption of it (re-announcing before every one)
+                for bit in 0..112usize {
+                    let _ = guarded(|| Message::try_from(sq.as_slice()));
+                    let mut c = sq.clone();
+                    c[bit / 8] ^= 0x80 >> (bit % 8);
+                    n += 1;
+                    if let Some((cl, w)) = check_accept(&c) {
+                        rep.violation(&format!("sequence:{cl}"), format!("{w} when decoded right after the valid frame {}", hexs(&sq)), json!({"kind":"accept-after","frame":hexs(&c),"after":hexs(&sq)}));
+                    }
+                }
+            }
+            total.fetch_add(n, Ordering::Relaxed);
+        });
+        rep.eval(total.load(Ordering::Relaxed));
+        rep.part("sequences: announce then reply / valid then corrupt", total.load(Ordering::Relaxed), json!({"announced_addresses": announced.len()}));
+    }
     rep.outcome("accept:accepted-as-DF17", ACCEPTED17.load(Ordering::Relaxed));
     rep.outcome("accept:rejected", REJECTED.load(Ordering::Relaxed));
     if CONTENT_REJECTED.load(Ordering::Relaxed) > 0 {
@@ -513,6 +561,18 @@ pub fn replay(w: &Value, rep: &Report) {
         Some("ap") => {
             if let Some((c, what)) = check_ap(&f, w["addr"].as_u64().unwrap() as u32, true) {
                 rep.violation(&c, what, w.clone());
+            }
+        }
+        Some("ap-after") => {
+            let _ = guarded(|| Message::try_from(unhex(w["after"].as_str().unwrap_or("")).as_slice()));
+            if let Some((c, what)) = check_ap(&f, w["addr"].as_u64().unwrap() as u32, true) {
+                rep.violation(&format!("sequence:{c}"), what, w.clone());
+            }
+        }
+        Some("accept-after") => {
+            let _ = guarded(|| Message::try_from(unhex(w["after"].as_str().unwrap_or("")).as_slice()));
+            if let Some((c, what)) = check_accept(&f) {
+                rep.violation(&format!("sequence:{c}"), what, w.clone());
             }
         }
         _ => panic!("bad witness"),
